@@ -522,7 +522,25 @@ class Aff:
         return out
 
     def op_type_max(self, t):
-        # the overflow assert's operand type is not exported separately; use usize unless both operands are byte reads
+        """largest value of the integer type the checked arithmetic is performed in: the assert tests field 1 of a `(T, bool)` pair"""
+        ty = None
+        if t.cond is not None and t.cond.place is not None:
+            pl = t.cond.place
+            ty = self.body.local_ty(pl.local)
+            # follow `_c = move (_p.1)` copies back to the pair
+            for _ in range(4):
+                m = re.match(r"^\((\w+), bool\)$", ty or "")
+                if m:
+                    return INT_RANGES.get(m.group(1), (0, 2 ** 64 - 1))[1]
+                src = None
+                for blk in self.body.blocks:
+                    for s in blk.stmts:
+                        if s.k == "a" and s.lhs.is_local() and s.lhs.local == pl.local and s.rv.k in ("use", "un") and s.rv.ops and s.rv.ops[0].place is not None:
+                            src = s.rv.ops[0].place
+                if src is None:
+                    break
+                pl = src
+                ty = self.body.local_ty(pl.local)
         return 2 ** 64 - 1
 
     def generic_array_len(self, t):
